@@ -37,8 +37,8 @@ def is_search(t):
 
 
 def is_position(t):
-    """iter().position(pred): Some(i) = index of the first element satisfying pred"""
-    return isinstance(t, tuple) and t and t[0] == 'call' and re.search(r'Iterator(>)?::position$', t[1]) is not None and len(t[2]) == 2
+    """iter().position(pred): Some(i) = index of the first element satisfying pred  (also iter().any(pred): the same linear search as a bool)"""
+    return isinstance(t, tuple) and t and t[0] == 'call' and re.search(r'Iterator(>)?::(position|any)$', t[1]) is not None and len(t[2]) == 2
 
 
 def position_parts(px, st, t):
